@@ -306,6 +306,27 @@ func genPolicy(c *Ctx) {
 			run2("pol/anti-all", "anti", stAll, stAll, mkList(id), mkList(small))
 		}
 	}
+	// constructed policy vs. the same policy after ToIPLD / FromIPLD (C14)
+	for i := 0; i < m*4; i++ {
+		k := 1 + c.R.Intn(3)
+		p := make([]pstmt, k)
+		for j := range p {
+			p[j] = gen(3)
+		}
+		pol, err := polBuild(p)
+		if err != nil {
+			continue
+		}
+		d := data[c.R.Intn(len(data))]
+		first := verdictW(pol, d)
+		second := WErr()
+		if nd, err := pol.ToIPLD(); err == nil {
+			if p2, err := policy.FromIPLD(nd); err == nil {
+				second = verdictW(p2, d)
+			}
+		}
+		c.Emit("pol/ipld-rt", WList(WStr("rt"), polWire(p), polWire(p), WNode(d), WNode(d)), WList(first, second))
+	}
 	// suite-blessed corner cases and the F7 witnesses
 	w := J(`{"a":1}`)
 	run1("pol/corpus", []pstmt{{kind: "and", subs: []pstmt{{kind: "==", sel: ".x?", val: J("1")}, {kind: "==", sel: ".a", val: J("2")}}}}, w)
